@@ -45,7 +45,7 @@ def gen_cases(rng, count, big, kinit=128):
         elif big and cid % 40 == 0:
             n = rng.choice([127, 128, 129, 511, 512, 513, 600, 1100])
         else:
-            n = rng.choice([2, 3, 4, 5, 7, 8, 9, 16, 17, 31, 33, 64, 100])
+            n = rng.choice([2, 3, 4, 5, 7, 8, 9, 16, 17, 31, 33, 64, 100]) if rng.random() < 0.5 else rng.randrange(2, 140)
         # Morton codes: many duplicates / all equal / distinct / clustered high bits
         if mode == 0:
             codes = [rng.randrange(4) for _ in range(n)]
@@ -437,13 +437,21 @@ def twod(cx, drv):
             lines.append("BVH2 %s %d %d %s %s" % (cid, n, m, " ".join(str(x) for b in boxes for x in b), " ".join(str(x) for b in qs for x in b)))
             cases[cid] = ("BVH2", boxes, qs)
         elif kind == "SWEEP":
-            n = rng.choice([0, 1, 2, 3, 6, 12, 40, 150])
+            n = rng.choice([0, 1, 2, 3, 6, 12, 40, 150]) if rng.random() < 0.5 else rng.randrange(0, 200)
             boxes = [box() for _ in range(n)]
             lines.append("SWEEP %s %d %s" % (cid, n, " ".join(str(x) for b in boxes for x in b)))
             cases[cid] = ("SWEEP", boxes, None)
         else:
-            n = rng.choice([0, 1, 7, 8, 9, 10, 17, 33, 100, 257])
-            m = rng.choice([1, 4])
+            # every size 0..47 once (the recursion of BuildTwoDTree bottoms out at views of <= 8 points, so every
+            # small node size and every way of halving into leaves occurs as a whole tree), then sizes spread over
+            # 0..600: node sizes n, n/2, n - n/2 - 1, ... then cover all residues around the leaf size
+            kdi = k // 3
+            if kdi < 48:
+                n = kdi
+            else:
+                r = rng.random()
+                n = rng.randrange(0, 96) if r < 0.5 else rng.randrange(96, 600) if r < 0.85 else rng.choice([16, 17, 18, 19, 33, 35, 36, 37, 38, 39, 71, 75, 76, 77, 78, 79, 257])
+            m = rng.choice([1, 4, 8])
             pts = [[rng.randrange(L), rng.randrange(L)] for _ in range(n)]
             qs = [box() for _ in range(m)]
             lines.append("KD %s %d %d %s %s" % (cid, n, m, " ".join(str(x) for p in pts for x in p), " ".join(str(x) for b in qs for x in b)))
